@@ -30,7 +30,7 @@ pub fn engine_by_key(key: &str) -> Option<Box<dyn DynEngine>> {
 }
 
 fn replay_timeout_s() -> u64 {
-    std::env::var("GSIM_REPLAY_TIMEOUT_S").ok().and_then(|s| s.parse().ok()).unwrap_or(90)
+    std::env::var("GSIM_REPLAY_TIMEOUT_S").ok().and_then(|s| s.parse().ok()).unwrap_or(300)
 }
 
 pub struct PartOut {
@@ -73,6 +73,12 @@ pub fn run_part(prop: &str, key: &str, seed: u64, runs: u64, tier: Tier, cap_s: 
     let e = engine_by_key(key).expect("engine key");
     let tag = format!("{prop}/{key}");
     let out = run_batch(key, &tag, seed, runs, tier, Duration::from_secs(cap_s));
+    if !out.worker_errors.is_empty() {
+        for e in &out.worker_errors {
+            eprintln!("HARNESS-ERROR: {e}");
+        }
+        std::process::exit(2);
+    }
     let mut violation = None;
     let mut spurious_stall = false;
     let hang_first = match (&out.violation, out.hung_at) {
